@@ -22,16 +22,30 @@ Proof. exact (pkt_record_msop bl tbl v th now host b stale). Qed.
 Print Assumptions C14_T1_msop_record.
 
 (* T3 (time half): replaying the recorded bytes with the LiDAR clock gives the original packet time
-   plus exactly one packet duration, in both header formats *)
+   plus exactly one packet duration, in both header formats; for the calendar format in every process time zone, with or
+   without daylight saving (c_dst: the zone's daylight periods), for every receive time except those inside the hour that is
+   repeated when daylight saving ends (their calendar time names two instants) *)
 Theorem C14_T3_replay_time d c variant b h :
   c_lidar_clock c = false -> c_pkt_cb c = true ->
   0 <= d_off_ts d <= blen b -> 0 <= h < 18446744073709551616 ->
-  (uses_utc d variant = false -> DAY_2000 <= (h / 1000000 + c_tz c) / 86400 < DAY_2256) ->
+  (uses_utc d variant = false -> -86400 <= c_tz c <= 86400 /\ DAY_2000 <= (h / 1000000 + c_tz c) / 86400 /\
+                                 (h / 1000000 + c_tz c + DST_SAVE) / 86400 < DAY_2256 /\ unambiguous (c_dst c) h) ->
   let rec := pkt_time d c variant b 0 h h in
   d_family d = Mech ->
   fst (pkt_time d (replay_cfg c) variant (snd rec) 0 0 0) = fst rec + d_packet_duration_ns d.
 Proof. exact (replay_time_offset d c variant b h). Qed.
 Print Assumptions C14_T3_replay_time.
+(* the defect repaired in /repo by the fix commit (parseTimeYMD passed tm_isdst = 0 to mktime): read always as standard time, a
+   header written while daylight saving is in force decodes one hour late - the replayed timestamps were 3600 s off *)
+Theorem C14_R2_isdst0_refuted : exists tz dst t,
+  parse_ymd_z tz dst (create_ymd_z tz dst t) 0 = t /\ parse_ymd tz (create_ymd_z tz dst t) 0 = t + 3600000000.
+Proof. exact ymd_isdst0_refuted. Qed.
+(* non-vacuity: a summer instant in a zone one hour east with European daylight saving 2024 *)
+Example C14_T3_dst_example :
+  let dst := [(1711846800, 1729990800)] in
+  unambiguous dst 1721043045123456 /\ in_dst dst (1721043045123456 / 1000000) = true /\
+  parse_ymd_z 3600 dst (create_ymd_z 3600 dst 1721043045123456) 0 = 1721043045123456.
+Proof. cbv zeta. repeat split; try (vm_compute; reflexivity). unfold unambiguous. vm_compute. discriminate. Qed.
 
 (* with the LiDAR clock on the recording side the bytes are handed on unchanged *)
 Theorem C14_T3_lidar_clock_unchanged d c variant b base h1 h2 : c_lidar_clock c = true ->
